@@ -632,6 +632,10 @@ fn exec(op: &Op, l: &mut Local, t: &Arc<Tables>) -> Result<ObsVal, String> {
             sched().world().actors[l.actor].bulk = false;
             Ok(ObsVal::Unit)
         }
+        Op::Warm => {
+            let n = fastrace::verif::ring_free_slots().ok_or("no ring")?;
+            Ok(ObsVal::Count(n as u64))
+        }
         Op::BusyWait { micros } => {
             let t0 = std::time::Instant::now();
             while t0.elapsed().as_micros() < *micros as u128 {
